@@ -242,7 +242,13 @@ pub fn install_panic_hook() {
             .unwrap_or_else(|| "?".into());
         if CATCH_DEPTH.with(|d| d.get()) == 0 {
             // a panic outside the outcome classifier is a harness error
-            eprintln!("HARNESS PANIC at {}: {}", loc, info);
+            eprintln!(
+                "HARNESS PANIC at {} case={} pos={}: {}",
+                loc,
+                CURRENT_CASE.load(Ordering::Relaxed),
+                CURRENT_POS.load(Ordering::Relaxed),
+                info
+            );
         }
         LAST_PANIC.with(|p| *p.borrow_mut() = Some(loc));
     }));
